@@ -18,7 +18,10 @@ WellFormed(r) ==
   IF r.m = "s2" THEN /\ Len(r.H) = r.d /\ Len(r.types) = Len(r.fr[1]) /\ r.nd >= 2 /\ r.rn > 0 /\ r.rd > 0
                      /\ \A i \in 1..Len(r.types) : r.types[i] \in 1..Len(r.sig)
                      /\ LoFramesWellFormed(r, Len(r.fr))       \* optional per-frame cells Hs / types tys
+                     \* optional fr0: the wrapped positions of which fr is an unwrapped image (same system)
+                     /\ "fr0" \in DOMAIN r => \A f \in 1..Len(r.fr) : LoUnwrapInvariant(LoFrameH(r, f), r.ppp, r.fr[f], r.fr0[f])
   ELSE IF r.m = "tetra" THEN /\ Len(r.pos) >= 5 /\ Len(r.H) = 3
+                             /\ "pos0" \in DOMAIN r => LoUnwrapInvariant(r.H, r.ppp, r.pos, r.pos0)
                              /\ "pos2" \in DOMAIN r => /\ Len(r.pos2) = Len(r.pos) /\ IsLowerTri(r.H2)
                                                         /\ \A k \in 1..3 : r.H2[k][k] = r.H[k][k]
   ELSE IF r.m = "nematic" THEN /\ \A f \in 1..Len(r.fr) : \A i \in 1..Len(r.fr[f]) : Norm2(r.fr[f][i]) = r.C * r.C
